@@ -49,6 +49,10 @@ THEOREMS = [
     "Nix.C16.C16_record_rows_positional",
     "Nix.C16.C16_record_creation_positional",
     "Nix.C16.C16_record_histories",
+    # the table as stored (text as UTF-8 bytes, raw / converted rows as in the code): the machine the driver runs
+    "Nix.C16.C16_storage_simulates",
+    "Nix.C16.C16_storage_reads",
+    "Nix.C16.C16_text_roundtrip",
     # shape of the source (Generated/FrameShape.lean, regenerated on every run)
     "Nix.C16.C16_handles_stateless",
     "Nix.C16.C16_guards_as_modelled",
